@@ -269,7 +269,8 @@ func seederCfg(p PeerSpec, ct *refpeer.Content, info []byte, r *rand.Rand) refpe
 		}
 	case "corrupt-one":
 		bad := p.Param % np
-		cfg.Corrupt = func(i, b int) bool { return i == bad && b == 0 }
+		// every block of the piece: the block at offset 0 is never requested when the piece starts with padding
+		cfg.Corrupt = func(i, b int) bool { return i == bad }
 	case "corrupt-all":
 		cfg.Corrupt = func(i, b int) bool { return true }
 	case "choker":
